@@ -497,6 +497,33 @@ impl C02Monitor {
                 }
             }
         }
+        // no issuer publishes a certificate for a key none of its children
+        // holds (any more): a revocation request that was answered
+        // positively took effect. Judged only for issuers all of whose
+        // registered children are CAs of this instance.
+        for issuer in w.ca_handles() {
+            if issuer == "ta" { continue }
+            let kids = Self::children_of(w, &issuer);
+            if kids.is_empty() { continue }
+            if kids.iter().any(|c| {
+                !w.krill.ca_manager().has_ca(&h(c)).unwrap_or(false)
+                    // a child that has dropped this parent revokes "best
+                    // effort" only: nothing is promised about its leftovers
+                    || !kvh::hist::Gen::parents_of(w, c).contains(&issuer)
+            }) { continue }
+            let held: BTreeSet<String> = kids.iter()
+                .flat_map(|c| all_keys(w, c)).collect();
+            for c in issuer_pub(w, &issuer) {
+                r.count("orphan_cert_checks", 1);
+                if !held.contains(&c.ski) {
+                    issues.push((
+                        "published-cert-for-key-no-child-holds".into(),
+                        format!("{issuer} publishes {} for key {} which none \
+                                 of its children {kids:?} holds", c.uri, c.ski),
+                    ));
+                }
+            }
+        }
         issues
     }
 
@@ -807,6 +834,10 @@ fn boundary_script(which: u64) -> (Vec<Op>, bool) {
             Op::Quiesce,
             upd("top", "mid", "AS65000-AS65005", "10.1.0.0/16", ""),
             Op::SyncParent { ca: "mid".into() }, Op::Quiesce,
+            // the child with the mapped class name rolls its key: the
+            // revocation of the old key names the class as the child knows it
+            Op::RollInit { ca: "kid".into() }, Op::Quiesce,
+            Op::RollActivate { ca: "kid".into() }, Op::Quiesce,
         ], true),
     }
 }
